@@ -19,13 +19,21 @@ import (
 
 func init() {
 	sim.Register(&sim.Prop{
-		ID: "C14", Run: runC14, QuickRuns: 15000, ThoroughRuns: 600000, RaceQuick: 3000, RaceThorough: 100000,
+		ID: "C14", Run: runC14, QuickRuns: 15000, ThoroughRuns: 600000, RaceQuick: 3000, RaceThorough: 100000, FineQuick: 2000, FineThorough: 60000,
 		Rule:        "Each run: 2..8 tasks, each a state machine running 1..5 create/use/release cycles of one kind of instance (BufferWriter+DefaultWriter->Sink, BufferReader+DefaultReader<-Source, the three skip decoders, TTHeader encode/decode stream- and bytes-backed, buffer decodes with the span cache on, FastMarshal/FastRead of the shipped structs, Get on a shared loaded StrMap and Str2Str) with payloads keyed by (task, cycle). Pass 1 executes every task alone and records its observable results; pass 2 re-executes the same tasks with exactly the same decisions under the seeded scheduler (switches at allocator calls, source reads, sink writes and step boundaries) and compares each task's results with its solo execution; the allocator ledger/fence watches buffer ownership. The same tapes run in the -race build, where the scheduler's hand-off is invisible to the race detector, so unsynchronised sharing is reported whatever the interleaving was.",
 		Components:  realComponents,
 		Probes:      []string{"cross_task_buffer_reuse", "switch_at_free", "switch_at_sink_write", "switch_at_source_read", "pool_flush_in_flight", "span_cache_on"},
 		Assumptions: []string{"the happens-before monitor inherits the Go race detector's limits (4 shadow cells per word; sync.Pool's edges can hide a race between unrelated pool users)"},
 	})
 }
+
+// setStmtHook installs the statement-level scheduling hook of the instrumented library copy;
+// a no-op unless the harness is built with the "fine" tag (props/fine_on.go).
+var setStmtHook = func(f func()) {}
+
+// setHashSeed makes the string maps' hash seeds a function of the run (fine build only: the
+// instrumented copy replaces the runtime-seeded hash by a simulator-seeded one).
+var setHashSeed = func(base uint64) {}
 
 // taskRec collects the observable results of one task (as hashes, in order).
 type taskRec struct {
@@ -504,6 +512,7 @@ func taskStrMap(t *sim.Task, st *sim.Stream, rec *taskRec, sh *sharedMaps) {
 
 func runC14(c *sim.Ctx) {
 	cfg := c.Cfg
+	setHashSeed(uint64(c.Seed)*0x9E3779B97F4A7C15 + uint64(c.Index))
 	a := sim.AllocCfg{Ceiling: 512 << 20}
 	fenceW := 1
 	if c.Tier == "thorough" {
@@ -529,6 +538,14 @@ func runC14(c *sim.Ctx) {
 	// shared read-only maps, loaded before any task starts
 	sh := &sharedMaps{ref: map[string]int{}, refS: map[string]string{}}
 	nk := 1 + cfg.Choose(200)
+	// hot-contention profile: every task hammers the same two or three keys of the shared
+	// maps (or the same pool), with a high switch rate: the situation in which a lock-free
+	// cache or a lazily built table in the library would be overtaken mid-operation
+	hot := cfg.Chance(1, 5)
+	if hot {
+		nk = 2 + cfg.Choose(2)
+		c.Count("cfg.hot_contention_profile")
+	}
 	for i := 0; i < nk; i++ {
 		k := string(sim.KeyedBytes(uint64(c.Index)*17+uint64(i), 0, cfg.Choose(24)))
 		if _, dup := sh.ref[k]; dup {
@@ -544,6 +561,13 @@ func runC14(c *sim.Ctx) {
 	kinds := make([]int, ntasks)
 	sameKind := cfg.Chance(1, 3) // many tasks of one kind contend for the same pool
 	k0 := cfg.Choose(len(taskKindNames))
+	if hot {
+		sameKind, k0 = true, 9
+		if ntasks < 3 {
+			ntasks = 3
+			kinds = make([]int, ntasks)
+		}
+	}
 	for i := range kinds {
 		if sameKind {
 			kinds[i] = k0
@@ -578,7 +602,16 @@ func runC14(c *sim.Ctx) {
 		s.SpawnTape(taskKindNames[kinds[i]], sim.NewReplayTape(tapes[i]), taskBody(kinds[i], conc[i], sh))
 	}
 	before := mcache.SimGetStats().CrossTaskReuse
+	if sim.FineBuild {
+		// statement-level scheduling points inside the library (instrumented copy)
+		s.StmtDen = []int{32, 8, 64, 256}[cfg.Choose(4)]
+		if hot {
+			s.StmtDen = 2 + cfg.Choose(3)
+		}
+		setStmtHook(func() { s.Yield(s.Current(), sim.YStmt) })
+	}
 	viol := s.Run()
+	setStmtHook(nil)
 	if mcache.SimGetStats().CrossTaskReuse > before {
 		c.Count("probe.cross_task_buffer_reuse")
 	}
